@@ -41,7 +41,7 @@ type Spec struct {
 	// Yield law (seeded mode): permille of sites that are hot, and the delay class.
 	HotPermille int    `json:"hot,omitempty"`
 	Focus       string `json:"focus,omitempty"` // comma separated substrings of sites that are always hot
-	DelayClass  string `json:"delay,omitempty"` // "" none | "tiny" (<=1ms) | "mid" (<=100ms) | "big" (<=7s)
+	DelayClass  string `json:"delay,omitempty"` // "" none | "tiny" (<=1ms) | "mid" (<=100ms) | "long" (<=3s) | "big" (<=7s)
 	Faults      string `json:"faults,omitempty"`
 	// Wake-up law: permille of runtime wake-ups after which the woken goroutine
 	// queues behind the runnable ones instead of running next.
@@ -226,7 +226,8 @@ type World struct {
 	evPass     smap     // "proc evkey" -> count
 	PassSeq    []string // ordered distinct "proc|on|key" in first-pass order (profile mode)
 	passSeen   smap
-	Injected   time.Duration // total delay injected by the simulator (yields + latency)
+	Injected   time.Duration // completed stalls injected by the simulator (yields + latency); see InjectedTotal
+	stalls     []stall       // stalls not yet folded into Injected
 
 	Hooks []func(ev *Event) // oracles observing kernel events while the run proceeds
 	// OnPipeWrite observes every write to a pipe before it is queued (raw
@@ -426,6 +427,15 @@ func delayLaw(class string, u uint64) int64 {
 			return int64(1 + u%uint64(time.Millisecond))
 		}
 		return int64(1 + u%uint64(100*time.Millisecond))
+	case "long":
+		// like "big", but a single stall stays below the brokers' 5 s timers
+		if r < 50 {
+			return int64(1 + u%uint64(time.Millisecond))
+		}
+		if r < 75 {
+			return int64(1 + u%uint64(100*time.Millisecond))
+		}
+		return int64(1 + u%uint64(3*time.Second))
 	case "big":
 		if r < 50 {
 			return int64(1 + u%uint64(time.Millisecond))
@@ -612,16 +622,39 @@ func (w *World) fire(t *Trigger, p *Proc) {
 
 //go:norace
 func (w *World) addInjected(d time.Duration) {
+	now := w.Now()
 	w.mu.Lock()
-	w.Injected += d
+	w.stalls = append(w.stalls, stall{now, now + d})
 	w.mu.Unlock()
 }
 
+type stall struct{ from, to time.Duration }
+
+// InjectedTotal is the stall time injected by the simulator that has ELAPSED
+// so far (a stall still in progress counts up to now): the difference between
+// two readings is the stall time that overlapped the interval between them,
+// whichever goroutine was stalled and whenever its stall began.
+//
 //go:norace
 func (w *World) InjectedTotal() time.Duration {
+	now := w.Now()
 	w.mu.Lock()
 	defer w.mu.Unlock()
-	return w.Injected
+	sum := w.Injected
+	keep := w.stalls[:0]
+	for _, s := range w.stalls {
+		if s.to <= now {
+			w.Injected += s.to - s.from
+			sum += s.to - s.from
+			continue
+		}
+		if s.from < now {
+			sum += now - s.from
+		}
+		keep = append(keep, s)
+	}
+	w.stalls = keep
+	return sum
 }
 
 // ---- schedule points ------------------------------------------------------------
